@@ -89,9 +89,32 @@ func (e *Enc) Run() (err error) {
 			e.sc.AssertNamed(t, "closure invariant "+c.Text)
 		}
 	}
+	if err := e.assumeGlobalInvs(e.entry); err != nil {
+		return err
+	}
+	if e.isInit() {
+		// the package initialiser runs once, with its guard still false
+		if g, ok := e.fn.Pkg.Members["init$guard"].(*ssa.Global); ok {
+			e.sc.AssertNamed(Not(e.loadPtr(e.entry, e.val(g), types.Typ[types.Bool])), "init runs with init$guard unset")
+		}
+	}
 	e.cover("entry", TTrue)
 
 	e.cur = e.copyState(e.entry)
+	if e.fc != nil {
+		for hi, h := range e.fc.Hooks {
+			if h.When != "entry" {
+				continue
+			}
+			e.hookHit[fmt.Sprintf("ghost#%d", hi)] = true
+			for _, st := range h.Stmts {
+				se := e.specEnv(e.entry, e.cur, nil)
+				if err := e.execGhostStmt(se, st, "ghost assertion at entry", fn.Pos()); err != nil {
+					return err
+				}
+			}
+		}
+	}
 	order := e.rpo(fn.Blocks[0])
 	for _, b := range order {
 		if err := e.execBlock(b, b == fn.Blocks[0]); err != nil {
@@ -378,6 +401,19 @@ func (e *Enc) loopModifies(li *loopInfo) (ws writeSets, all bool) {
 		}
 	}
 	ws.whole("alloc", SInt)
+	// an address term that reads a heap the loop itself writes is not loop-invariant
+	for _, w := range ws {
+		if w.whole {
+			continue
+		}
+		for _, a := range w.addrs {
+			for n2 := range ws {
+				if n2 != "alloc" && (strings.Contains(a.S, n2+"@") || strings.Contains(a.S, n2+"!")) {
+					w.whole = true
+				}
+			}
+		}
+	}
 	return ws, false
 }
 
@@ -556,7 +592,26 @@ func (e *Enc) enterLoop(li *loopInfo, phiEntry map[*ssa.Phi]Term) error {
 		if !ok {
 			break
 		}
-		e.defineFresh(phi)
+		c := e.defineFresh(phi)
+		// a phi whose incoming values are all allocations of this function is a valid cell of this
+		// activation: non-nil, allocated after entry, distinct from the other allocations
+		if allAllocEdges(phi) {
+			alloc0 := e.lookup(e.entry, "alloc", SInt)
+			e.sc.Assert(Implies(e.curGuard, And(App(SBool, ">", c, alloc0), App(SBool, "<=", c, e.lookup(e.cur, "alloc", SInt)))))
+			edges := map[ssa.Value]bool{}
+			for _, ed := range phi.Edges {
+				edges[ed] = true
+			}
+			for _, bb := range e.fn.Blocks {
+				for _, ins := range bb.Instrs {
+					if a, ok := ins.(*ssa.Alloc); ok && !edges[a] && !e.localCells[a] {
+						if av, ok := e.vals[a]; ok && !li.body[a.Block()] {
+							e.sc.Assert(Implies(e.curGuard, Not(Eq(c, av))))
+						}
+					}
+				}
+			}
+		}
 	}
 	// 3. assume invariants
 	se = e.specEnv(e.entry, e.cur, nil)
@@ -1366,4 +1421,32 @@ func (e *Enc) indexAddrNames(x *ssa.IndexAddr, names map[string]string) {
 		et = u.Elem().Underlying().(*types.Array).Elem()
 	}
 	names["E$"+e.tr.typeID(et)] = ArraySort(SInt, ArraySort(SInt, e.tr.sortOf(et)))
+}
+
+// assumeGlobalInvs: invariants over package-level variables (proved of the package's init and of the
+// absence of other writers) hold in every state of every function of the package.
+func (e *Enc) assumeGlobalInvs(st *State) error {
+	if e.fn == nil || e.fn.Pkg == nil || e.isInit() {
+		return nil
+	}
+	for _, cl := range e.prog.cs.GlobalInvs[e.fn.Pkg.Pkg.Path()] {
+		se := &specEnv{e: e, old: st, cur: st, binds: map[string]specVal{}, noLocal: true, pkg: e.fn.Pkg.Pkg}
+		t, err := se.evalBool(cl.Expr)
+		if err != nil {
+			return fmt.Errorf("%s:%d: globalinv: %v", cl.File, cl.Line, err)
+		}
+		e.sc.AssertNamed(t, "global invariant "+cl.Text)
+	}
+	return nil
+}
+
+func (e *Enc) isInit() bool { return e.fn != nil && e.fn.Name() == "init" && e.fn.Synthetic != "" }
+
+func allAllocEdges(phi *ssa.Phi) bool {
+	for _, ed := range phi.Edges {
+		if _, ok := ed.(*ssa.Alloc); !ok {
+			return false
+		}
+	}
+	return len(phi.Edges) > 0
 }
